@@ -41,6 +41,8 @@ def value_cases(draw, big=False):
         recipe = g.V(depth, classes=("var", "expr", "pow", "un"))
     elif top == "M":
         recipe = g.M(depth)
+    elif draw(st.integers(0, 2)) == 0:
+        recipe = g.elem_of_expr(depth)   # indexing (also negative) into vector / matrix expressions and element-wise results
     else:
         recipe = g.reduction(depth)
     pts = draw(gen.points(all_var_names(env), k=2))
